@@ -55,12 +55,21 @@ def matching_time_indices(stamps_1: np.ndarray, stamps_2: np.ndarray,
     matching_indices_2 = []
     stamps_2 = copy.deepcopy(stamps_2)
     stamps_2 += offset_2
+    # Best match of stamps_1 for each matched index of stamps_2, to make sure
+    # that no timestamp is used more than once.
+    best_matches: typing.Dict[int, typing.Tuple[float, int]] = {}
     for index_1, stamp_1 in enumerate(stamps_1):
         diffs = np.abs(stamps_2 - stamp_1)
         index_2 = int(np.argmin(diffs))
-        if diffs[index_2] <= max_diff:
-            matching_indices_1.append(index_1)
-            matching_indices_2.append(index_2)
+        if diffs[index_2] > max_diff:
+            continue
+        if index_2 not in best_matches or diffs[index_2] < best_matches[
+                index_2][0]:
+            best_matches[index_2] = (diffs[index_2], index_1)
+    for index_2, (_, index_1) in sorted(best_matches.items(),
+                                        key=lambda item: item[1][1]):
+        matching_indices_1.append(index_1)
+        matching_indices_2.append(index_2)
     return matching_indices_1, matching_indices_2
 
 
